@@ -42,6 +42,16 @@ CHECKS = {
         text="A reference selection function (reverse, skip offset, take limit), the forloop formulas and a small reference interpreter for nested loops are compared with the real for/tablerow/cycle/break/continue on the complete grid length 0..5|7 x offset x limit x reversed x 10 body variants x 5 collection representations x 3 modifier spellings, tablerow x cols, all range endpoint pairs in -3..6, maps of 0..4 entries (multiset of pairs), 14 nothing-selected cases (else must render) and every nested loop program of depth <=2|3 with break/continue at each index and four cycle variants per level.",
         note="Unspecified: negative offset/limit, cols: 0, class names of tablerow; cycle counters are per loop execution.",
         tech="exhaustive grid and nested-program enumeration against a reference loop interpreter"),
+    "C12": dict(
+        cat="model_checking", ref="4/C12",
+        text="A reference interpreter with one flat variable store (assign/capture write it, loops save and restore the loop variable and forloop on every exit including break, include reads the current store) is compared with the real engine on every program of <=4 (quick) / <=5 (thorough) statements over 11 statement kinds (assign, assign-from-variable, include, capture, shadowing for, for with break, for named forloop, tablerow, if true/false), with a probe reading every variable after every statement and at the start of every body, from bound and unbound initial bindings; the capture-equivalence law is checked on every program and on pairs of fragments from the other generators.",
+        note="Included file is served from the engine cache; it assigns only a variable the includer never reads. tablerow decoration stripped before comparison.",
+        tech="exhaustive program enumeration (unranked by size) against a reference interpreter, plus a differential law"),
+    "C13": dict(
+        cat="model_checking", ref="4/C13",
+        text="For skeletons of 1-2 (quick) / 1-3 (thorough) tag items (object, assign, if, if/else, for, comment, raw, capture) surrounded by text pieces from a whitespace alphabet, every one of the 2^k subsets of hyphen positions (k <= 12) is rendered. A token-level reference trimmer decides the output whenever every hyphen faces non-empty literal text on the taken path; in all cases the whitespace-erased outputs with and without hyphens must coincide, and a template without hyphens must lose nothing.",
+        note="raw/comment bodies and untaken branches are not literal text for the exact oracle; hyphens adjacent to another tag fall under the whitespace-erasure law only.",
+        tech="exhaustive marker-subset enumeration over template skeletons against a token-level reference trimmer"),
 }
 
 NOT_YET = "check not built yet (work in progress; see DESIGN.md section 7 build order)"
